@@ -58,10 +58,30 @@ def gen_cases(tier, seed):
         c = {"mode": base["mode"], "wt": base["wt"], "cons": [], "cov": 1.0, "ignore": [], "oo": rng.choice(OPTS), "planted": len(base["planted"])}
         drop = []; garbage = {}
         r = rng.random()
-        if r < 0.35:
+        if r < 0.45:
             P = gen.all_paths(base["nodes"], base["edges"]) if base["edges"] else []
             if P and base["mode"] == "edge":
                 c["cons"] = gen.jl(gen.rand_subpath_constraints(rng, P, n=rng.randint(1, 3)))
+                # a 'crossing' constraint (an edge of one planted path before a shared node, an edge of another planted path after it):
+                # no planted path contains it, so a decomposition must spend an extra (possibly zero-weight) path on it; it is listed FIRST,
+                # followed by constraints the planted paths satisfy
+                pl = [p for p, _ in base["planted"]]
+                cross = None
+                for A in pl:
+                    for B in pl:
+                        if A is B:
+                            continue
+                        shared = [v for v in A[1:-1] if v in B[1:-1]]
+                        if shared:
+                            v = rng.choice(shared); i = A.index(v); j = B.index(v)
+                            ea = (A[i - 1], A[i]); eb = (B[j], B[j + 1])
+                            if (B[j - 1], B[j]) != ea and (A[i], A[i + 1]) != eb:
+                                cross = [list(ea), list(eb)]
+                if cross and rng.random() < 0.8:
+                    easy = gen.jl(gen.rand_subpath_constraints(rng, pl, n=1, contiguous_prob=1.0))
+                    c["cons"] = [cross] + easy; c["cov"] = 1.0; c.pop("covlen", None)
+                    if rng.random() < 0.7:
+                        c["oo"] = rng.choice([{}, {"use_min_gen_set_lowerbound": True}, {"optimize_with_flow_safe_paths": False, "optimize_with_safe_paths": False}])   # greedy stays on
                 c["cov"] = rng.choice([1.0, 1.0, 0.75, 0.5])
                 if rng.random() < 0.2:
                     c["covlen"] = rng.choice([1.0, 0.6]); c["cov"] = 1.0
